@@ -6,10 +6,11 @@ remote description:
 
 * `peerconnection.go`: `AddTrack`, `AddTransceiverFromKind`, `AddTransceiverFromTrack`,
   `newTransceiverFromTrack`, `RemoveTrack`, `CreateDataChannel` (the `dataChannelsRequested` counter),
-  `CreateOffer` (mid assignment with `greaterMid`, the retry loop around `hasLocalDescriptionChanged`,
-  128 attempts), `generateUnmatchedSDP`;
+  `CreateOffer` (`updateGreaterMid` over the descriptions held — here only the pending local one — and over
+  all transceivers, then numbering of the transceivers without mid; the retry loop around
+  `hasLocalDescriptionChanged`, 128 attempts), `generateUnmatchedSDP` (`dataMediaSectionMid`);
 * `sdp.go`: `populateSDP`, `addTransceiverSDP` (incl. the "no codecs" branches: error for a transceiver
-  with a sender, bare rejected `m=` line otherwise), `addSenderSDP` (ssrc-group FID / FEC-FR, `a=ssrc`
+  with a sender, rejected `m=` line carrying only its `a=mid` otherwise), `addSenderSDP` (ssrc-group FID / FEC-FR, `a=ssrc`
   sources, `a=msid`, `a=rid` / `a=simulcast` for more than one encoding), `getByMid`, `getPeerDirection`;
 * `rtpsender.go`: `NewRTPSender`, `addEncoding`, `AddEncoding`, `GetParameters`, `Track`, `ReplaceTrack`
   (before `Send`), `Stop` (before `Send`);
@@ -122,6 +123,10 @@ structure St where
   haveOffer : Bool := false
   /-- signaling state is have-local-offer (a `SetLocalDescription(offer)` succeeded) -/
   localOffer : Bool := false
+  /-- the `a=mid` values (RTP sections, then the application section) of the last created offer -/
+  lastOfferMids : List (Option Int) := []
+  /-- the `a=mid` values of `pendingLocalDescription` (empty: none) -/
+  pendingLocalMids : List (Option Int) := []
   deriving Repr
 
 def init (eng : Engine) (always : Bool) : St := { eng, always }
@@ -338,7 +343,7 @@ structure Source where
 /-- abstract RTP m-section -/
 structure Section where
   kind : Kind
-  /-- bare `m=<kind> 0 UDP/TLS/RTP/SAVPF 0` line without attributes -/
+  /-- `m=<kind> 0 UDP/TLS/RTP/SAVPF 0` line with no attribute but `a=mid` -/
   rejected : Bool
   mid : Option Int
   dirs : List Dir
@@ -387,7 +392,7 @@ def transceiverSection (e : Engine) (t : Transceiver) : Except Err Section :=
           rids := if ps.length > 1 then ps.map (·.rid) else []
           simulcast := if ps.length > 1 then some (ps.map (·.rid)) else none }
   else if t.sender.isSome then .error .sendernocodec
-  else .ok { kind := t.kind, rejected := true, mid := none, dirs := [], msids := [], sources := [], groups := [],
+  else .ok { kind := t.kind, rejected := true, mid := t.mid, dirs := [], msids := [], sources := [], groups := [],
              rids := [], simulcast := none }
 
 /-- `populateSDP` over the RTP sections: the first failing section aborts -/
@@ -401,29 +406,49 @@ def sectionsOf (e : Engine) : List Transceiver → Except Err (List Section)
       | .error err => .error err
       | .ok secs => .ok (sec :: secs)
 
+/-- `dataMediaSectionMid`: the first number from `c` upwards that no section uses as its mid. The Go loop
+    is unbounded; it ends after at most `len(sections) + 1` candidates, which is the fuel given by `dataMid`. -/
+def dataMidFrom : Nat → Int → List (Option Int) → Int
+  | 0, c, _ => c
+  | f + 1, c, ids => if ids.contains (some c) then dataMidFrom f (c + 1) ids else c
+
+def dataMid (ids : List (Option Int)) : Int := dataMidFrom (ids.length + 1) ids.length ids
+
 /-- `generateUnmatchedSDP` + `populateSDP` -/
 def generate (s : St) : Except Err Offer :=
   match sectionsOf s.eng s.trs with
   | .error e => .error e
   | .ok media =>
-    .ok { media, app := if s.always || s.dcRequested != 0 then some (s.trs.length : Int) else none }
+    .ok { media, app := if s.always || s.dcRequested != 0 then some (dataMid (s.trs.map (·.mid))) else none }
 
-/-- the mid-assignment loop of `CreateOffer` -/
-def assignMids : List Transceiver → Int → List Transceiver × Int
+/-- `updateGreaterMid` (every mid in this scope is numeric) -/
+def raiseMid (g : Int) : Option Int → Int
+  | some m => if m > g then m else g
+  | none => g
+
+def raiseAll : Int → List (Option Int) → Int
+  | g, [] => g
+  | g, m :: ms => raiseAll (raiseMid g m) ms
+
+/-- the numbering loop of `CreateOffer`: transceivers without mid get `greaterMid+1, …` -/
+def numberMids : List Transceiver → Int → List Transceiver × Int
   | [], g => ([], g)
   | t :: ts, g =>
     match t.mid with
-    | some m =>
-      let r := assignMids ts (if m > g then m else g)
+    | some _ =>
+      let r := numberMids ts g
       (t :: r.1, r.2)
     | none =>
-      let r := assignMids ts (g + 1)
+      let r := numberMids ts (g + 1)
       ({ t with mid := some (g + 1) } :: r.1, r.2)
+
+/-- the mids of a description: RTP sections, then the application section -/
+def offerMids (o : Offer) : List (Option Int) := o.media.map (·.mid) ++ [o.app]
 
 /-- `getByMid` + `getPeerDirection` on the generated description: the first section (RTP sections, then
     the application section, whose direction attribute is `sendrecv`) carrying that mid -/
 def lookupDir (o : Offer) (mid : Option Int) : Option (Option Dir) :=
-  match o.media.find? (fun sec => !sec.rejected && sec.mid == mid) with
+  match o.media.find? (fun sec => sec.mid == mid) with
   | some sec => some sec.dirs.head?
   | none => if o.app.isSome && o.app == mid then some (some .sendrecv) else none
 
@@ -434,9 +459,12 @@ def changed (trs : List Transceiver) (o : Offer) : Bool :=
     | none => true
     | some d => d != some t.dir
 
-/-- the mid-assignment loop applied to the connection -/
+/-- mid assignment of `CreateOffer`: raise `greaterMid` over the descriptions held (without a remote
+    description and before any answer that is the pending local description only) and over all transceivers,
+    then number the transceivers that have no mid -/
 def assignSt (s : St) : St :=
-  let r := assignMids s.trs s.greaterMid
+  let g := raiseAll (raiseAll s.greaterMid s.pendingLocalMids) (s.trs.map (·.mid))
+  let r := numberMids s.trs g
   { s with trs := r.1, greaterMid := r.2 }
 
 /-- the `for` loop of `CreateOffer`; the first argument is the number of attempts left after this one (Go
@@ -447,14 +475,14 @@ def offerLoop : Nat → St → St × Except Err Offer
     match generate s1 with
     | .error e => (s1, .error e)
     | .ok o =>
-      if !changed s1.trs o then ({ s1 with haveOffer := true }, .ok o)
+      if !changed s1.trs o then ({ s1 with haveOffer := true, lastOfferMids := offerMids o }, .ok o)
       else (s1, .error .retries)
   | fuel + 1, s =>
     let s1 := assignSt s
     match generate s1 with
     | .error e => (s1, .error e)
     | .ok o =>
-      if !changed s1.trs o then ({ s1 with haveOffer := true }, .ok o)
+      if !changed s1.trs o then ({ s1 with haveOffer := true, lastOfferMids := offerMids o }, .ok o)
       else offerLoop fuel s1
 
 /-- `CreateOffer(nil)` -/
@@ -473,8 +501,8 @@ inductive Op
   | dataChannel (both : Bool)
   | offer
   /-- `SetLocalDescription(last offer)`: accepted in `stable` only (`checkNextSignalingState` refuses
-      have-local-offer → SetLocal(offer)); commits the pending local description and starts gathering;
-      none of the state that `CreateOffer` reads changes -/
+      have-local-offer → SetLocal(offer)); the offer becomes the pending local description (whose mids
+      `CreateOffer` numbers new transceivers above) and gathering starts -/
   | setLocal
   deriving DecidableEq, Repr, Inhabited
 
@@ -494,7 +522,7 @@ def step (s : St) : Op → St × Res
   | .setLocal =>
     if !s.haveOffer then (s, .skip)
     else if s.localOffer then (s, .err .sigstate)
-    else ({ s with localOffer := true }, .ok)
+    else ({ s with localOffer := true, pendingLocalMids := s.lastOfferMids }, .ok)
 
 /-- run a history, collecting the result of every call -/
 def runOps : St → List Op → St × List Res
